@@ -146,6 +146,16 @@ func payloadFor(idx, n int, seed int64) []byte {
 func hostilePayload(phase, n int) []byte {
 	pat := []byte{0x00, 0x00, 0x01, 0xe0, 0x00, 0x00, 0x80, 0x00, 0x00}
 	b := make([]byte, n)
+	switch phase { // 9..: what padding, stuffing and sync bytes look like
+	case 9: // ordinary bytes between 0xFF at both ends
+		copy(b, payloadFor(phase, n, 1))
+		for i := 0; i < 3 && i < n; i++ {
+			b[i], b[n-1-i] = 0xff, 0xff
+		}
+		return b
+	case 10, 11, 12:
+		return bytes.Repeat([]byte{[]byte{0xff, 0x00, 0x47}[phase-10]}, n)
+	}
 	for i := range b {
 		b[i] = pat[(i+phase)%len(pat)]
 		if (i+phase)%45 == 44 {
@@ -187,6 +197,8 @@ func MakeAF(kind string, idx int) *astits.PacketAdaptationField {
 		return &astits.PacketAdaptationField{StuffingLength: 172}
 	case "noroomstuffpcr":
 		return &astits.PacketAdaptationField{HasPCR: true, PCR: cr(int64(idx)*3003+11, 2), StuffingLength: 170}
+	case "opcr": // OPCR without PCR, with the other fixed-size parts
+		return &astits.PacketAdaptationField{HasOPCR: true, OPCR: cr(int64(idx)*7+0x1_0000_0001, 0x1ff), HasSplicingCountdown: true, SpliceCountdown: -3, DiscontinuityIndicator: true}
 	case "splice":
 		return &astits.PacketAdaptationField{HasSplicingCountdown: true, SpliceCountdown: 5, ElementaryStreamPriorityIndicator: true}
 	case "ext":
